@@ -715,6 +715,12 @@ ATTACH = {
     'C20': [],
 }
 
+# compared for the property, but not a starting point of its reach (what they call is not the property's business)
+ATTACH_ONLY = {
+    # where the inferred bin size is published (bin-type / bin-size attributes) and read back (C20-r4-3)
+    'C20': ['cooler.create._create.create', 'cooler.api.Cooler.binsize'],
+}
+
 
 # functions that carry a recorded finding (or are decided by structural rules that accept
 # alternative implementations) are compared / decided only in their home property module
@@ -904,11 +910,11 @@ def run_for(ctx, prop):
     for q, r in refs_misc.REFS.items():
         lib.setdefault(q, dict(module=r['module'], src=r['src'], why=r['why'], nested=()))
     n = 0
-    quals = list(ATTACH.get(prop, []))
+    quals = list(ATTACH.get(prop, [])) + list(ATTACH_ONLY.get(prop, []))
     for q in _auto(ctx, prop, lib):
         if q not in quals:
             quals.append(q)
-    explicit = set(ATTACH.get(prop, []))
+    explicit = set(ATTACH.get(prop, [])) | set(ATTACH_ONLY.get(prop, []))
     up_only, targets = _PLUMBING.get((ctx.repo.root, prop), (set(), set()))
     for qual in quals:
         r = lib[qual]
